@@ -30,6 +30,11 @@ def judge(t):
     if isinstance(t.escaped, core.StepBudget):
         V('C08.4-terminates', 'compile() exceeded the event budget (%d events): %s' % (len(t.world.log), [c.brief() for c in t.calls[-4:]]), what='budget')
         return viol
+    if isinstance(t.escaped, (RecursionError, MemoryError)) or (t.escaped is not None and scn.get('deep_chain')):
+        # the call has to come back with a result for every import graph, however deep
+        V('C08.4-terminates', 'compile() did not complete for an import graph of %d modules: %s' % (len(scn.get('modules', {})), type(t.escaped).__name__),
+          what='did-not-complete', exception=type(t.escaped).__name__)
+        return viol
     if t.escaped is not None or not isinstance(R, dict):
         t.world.probe('not-judged:compile-raised')
         return viol
